@@ -89,7 +89,8 @@ def run(chk, prog):
         chk.instance("failure-reply", e.where(), "at most one on_error per path", not twice)
         if twice:
             chk.finding("failure-reply", pr.key, "double-error", "", e.where(), "a path of process_request calls on_error twice")
-    hs = prog.body_of(prog.one(r"^listeners::socks::SocksListener::handshake$"))
+    from . import shared as _sh
+    hs = _sh.fn_calling(prog, r"auth::AuthData::check$", "listeners/socks.rs")
     h_one = [c for c in hs.calls if re.search(r"context::ContextRefOps::on_error$", c.path or "")]
     h_enq = [c.bb for c in hs.calls if re.search(r"context::ContextRefOps::enqueue$", c.path or "")]
     chk.floor("failure-reply", len(h_one), 4, "refusal edges in the SOCKS handshake")
